@@ -345,6 +345,8 @@ fn cmd_check(a: &Args) -> i32 {
         }
     }
     let child_mode = a.opts.get("child-report");
+    // (under a panic guard: a panic here is a finding of its own, reported by the first check that decodes anything)
+    let _ = mqv::run::guard(|| mqv::fam::process_warm(child_mode.is_none()));
 
     if let Some(path) = child_mode {
         let j = J::obj(vec![
